@@ -33,6 +33,10 @@ var c14Conds = []struct{ name, cond string }{
 	{"paren-or-later-fails", "(F.Arr[F.K] > 0) || F.I2 == 9"},
 	{"paren-and-later-fails", "(F.Arr[F.K] > 5) && F.I2 == 0"},
 	{"selector-later-fails", "F.Arr[F.K] > 0 && F.I < 5"},
+	// the same failure sites on a JSON fact
+	{"json-index-range", "J.a[7] == 0"},
+	{"json-index-range-const-left", `"x" == J.a[7]`},
+	{"json-missing-member", "J.zz.n == 0"},
 }
 
 var c14Acts = []struct {
@@ -52,6 +56,8 @@ var c14Acts = []struct {
 	{"complete-then-error", []string{"F.I = F.I + 1", "Complete()", "F.Arr[7] = 1", "F.I2 = 3"}},
 	{"complete-then-probe", []string{"Complete()", "F.Act(%a)", "F.I2 = 2"}},
 	{"retract-then-error", []string{`Retract("r2")`, "F.I = F.I + 1", `F.I8 = "x"`}},
+	{"act-json-index-range-rhs", []string{"F.I = F.I + 1", "J.n = J.a[7]", "F.I2 = 11"}},
+	{"act-json-index-range-rhs-to-field", []string{"F.I = F.I + 1", "F.In = J.a[7]", "F.I2 = 12"}},
 }
 
 func c14Rule(i int, ci, ai int) *grl.Rule {
@@ -77,6 +83,7 @@ func c14World(faultAt, kind int) func() *ref.World {
 		f.H().FaultAt = faultAt
 		f.H().FaultKind = kind
 		w.Objs["F"] = f
+		w.JSON["J"] = map[string]interface{}{"n": 1.0, "a": []interface{}{1.0, 2.0}}
 		return w
 	}
 }
